@@ -784,10 +784,14 @@ func (r *runner) checkPendingNonce() {
 			r.label("obs:pending-nonce-differs-from-first-unheld(with-same-nonce-variants)")
 			continue
 		}
-		sig := "pending-nonce-wrong-for-contiguous-run"
 		if gapped {
-			sig = "pending-nonce-skips-gap-in-queue"
+			// The property statement does not say what the pending-nonce query must answer while the
+			// account's queue has a gap (the code answers max+1 or the first unheld nonce depending
+			// on where the gap is: e.g. {0,1,3} -> 4, {0,3} -> 1). Observation only, not judged.
+			r.label("obs:pending-nonce-with-gap-differs-from-first-unheld")
+			continue
 		}
+		sig := "pending-nonce-wrong-for-contiguous-run"
 		if r.fail(sig, "GetPendingMaxNonce(account %d)=%d, model: state nonce %d, held nonces %v, first nonce not held %d", a, got, m.s[a], heldNonces(m, a), want) {
 			return
 		}
